@@ -4,5 +4,5 @@ CONSTANTS
   NWorlds = 2
   MaxCreate = 2
   MaxBatch = 2
-INVARIANTS Inv_C13 Inv_C01 Inv_C02 Inv_C06
+INVARIANTS Inv_C13 Inv_C01 Inv_C02 Inv_C06 Inv_C16
 CHECK_DEADLOCK FALSE
